@@ -164,6 +164,8 @@ def _run_case(case: dict, judges: list[str], opts: dict):
         out["viol"].append({"judge": "tie", "what": f"exporter: {e}", "case": case})
         return out
     ok = _drv.ask("G " + sexp)
+    if ok == "OK":
+        ok = _drv.ask("B " + " ".join(map(str, syms.inlined)))
     if ok != "OK":
         out["viol"].append({"judge": "tie", "what": f"driver rejected grammar: {ok}", "case": case, "sexp": sexp})
         return out
@@ -201,7 +203,8 @@ def _run_case(case: dict, judges: list[str], opts: dict):
                 pts.append((text, k))
         ms = _drv.ask_many(qs)
         mis = _drv.ask_many(["PI" + q[1:] for q in qs]) if "TIE" in judges else [None] * len(qs)
-        for (text, k), m, mi in zip(pts, ms, mis):
+        mgs = _drv.ask_many(["PG" + q[1:] for q in qs]) if "TIE" in judges else [None] * len(qs)
+        for (text, k), m, mi, mg in zip(pts, ms, mis, mgs):
             out["cases"] += 1
             if m in ("FUEL", "ERR") or m.startswith("DRIVER-ERROR"):
                 if m.startswith("DRIVER-ERROR"):
@@ -212,6 +215,8 @@ def _run_case(case: dict, judges: list[str], opts: dict):
             lines = {"M": m}
             if mi is not None:
                 lines["MI"] = mi
+            if mg is not None:
+                lines["MG"] = mg
             for mode in modes:
                 if mode in b.err:
                     continue
@@ -271,6 +276,10 @@ def judge(judges, lines, res, case, rule, text, k, names_ok, tags_ok, rule_silen
                 v.append(("tie", "mode I differs from the model (tree, failure position or expected sets)"))
             if "MI" in lines and lines["MI"] != m:
                 v.append(("tie", "the interpreter model (Interp.v) differs from the reference semantics (Spec.v)"))
+            if "MG" in lines and impl.strip_sets(lines["MG"]) != impl.strip_sets(m):
+                v.append(("tie", "the generated-code model (Gen.v) differs from the reference semantics (Spec.v)"))
+            if "IG" in lines and "MG" in lines and lines["IG"] != lines["MG"]:
+                v.append(("tie", "mode IG differs from the generated-code model (tree, failure position or expected sets)"))
             if "IG" in lines and impl.strip_sets(lines["IG"]) != impl.strip_sets(m):
                 v.append(("tie", "mode IG differs from the model (tree or failure position)"))
         elif j == "C07":
